@@ -191,7 +191,7 @@ class Decisions:
     return False
 
 
-def quick_check(assumptions, extra, timeout_ms=400):
+def quick_check(assumptions, extra, timeout_ms=200):
   s = z3.Solver()
   s.set('timeout', timeout_ms)
   s.add(*assumptions)
